@@ -2,6 +2,7 @@
 and architecture-defined encodings for MSP430 and RV32I."""
 import json
 import random
+import re
 
 from .. import common as C
 from .. import memmodel as M
@@ -186,6 +187,51 @@ def run(tier, seed):
         ts = texts if tier == "thorough" else rnd.sample(texts, min(150, len(texts)))
         sel += [(cpu, t) for t in ts]
     sel += sorted(harvested)
+    # operand cross product: the operand spellings seen in one position of a mnemonic, combined with those seen in its
+    # other position (mov #5, r1 and mov r1, 0x104c give mov #5, 0x104c): one representative per operand shape, every
+    # combination that is not a form already; what the assembler refuses is not an instruction and drops out
+    def split_ops(t):
+        parts = t.strip().split(None, 1)
+        if len(parts) < 2:
+            return parts[0], []
+        ops, depth, cur = [], 0, ""
+        for ch in parts[1]:
+            if ch in "([{":
+                depth += 1
+            elif ch in ")]}":
+                depth -= 1
+            if ch == "," and depth == 0:
+                ops.append(cur.strip())
+                cur = ""
+            else:
+                cur += ch
+        ops.append(cur.strip())
+        return parts[0], ops
+    have = set(sel)
+    slots = {}
+    for cpu, text in sorted(have):
+        if ":" in text or "\n" in text:
+            continue
+        m, ops = split_ops(text)
+        if len(ops) != 2 or not all(ops):
+            continue
+        for k, o in enumerate(ops):
+            # (a spelling seen in one position is tried in the other too: many encodings take the same operand kinds in both)
+            for kk in (0, 1):
+                slots.setdefault((cpu, m), ({}, {}))[kk].setdefault(re.sub(r"\d+", "#", re.sub(r"0x[0-9a-fA-F]+", "#", o)), o)
+    cross = []
+    for (cpu, m), (first, second) in sorted(slots.items()):
+        combos = [(a, b) for ka, a in sorted(first.items()) for kb, b in sorted(second.items()) if (cpu, "%s %s, %s" % (m, a, b)) not in have]
+        cross.append((cpu, [(cpu, "%s %s, %s" % (m, a, b)) for a, b in (combos if len(combos) <= 16 else combos[::(len(combos) + 15) // 16][:16])]))
+    percross = {}
+    for cpu, lst in cross:
+        percross.setdefault(cpu, []).extend(lst)
+    ncross = 0
+    for cpu, lst in sorted(percross.items()):
+        cap = 400 if tier == "quick" else 6000
+        pick = lst if len(lst) <= cap else lst[::(len(lst) + cap - 1) // cap][:cap]      # (independent of the seed)
+        sel += pick
+        ncross += len(pick)
     for i, (cpu, text) in enumerate(sel):
         for addr in ((0, 0x8000) if tier == "thorough" else (0x100 if i % 2 else 0,)):
             a = addr - addr % by_name[cpu]["bpa"]
@@ -241,10 +287,11 @@ def run(tier, seed):
         evaluations=len(cases) + narch + nrv, msp430_architecture_cases=narch, rv32i_architecture_cases=nrv,
         distinct_nontrivial=len({(c[1].split("cpu=")[1].split()[0], c[2]) for c in cases}),
         rule="instruction texts of tests/comparison/*.txt (read at run time) plus every distinct accepted rendering harvested "
-             "from the decode side, assembled at one or two load addresses; every case is an instruction (non-trivial); "
+             "from the decode side plus the cross product of the operand spellings seen per position of a mnemonic (one per operand shape, "
+             "16 combinations per mnemonic), assembled at one or two load addresses; every case is an instruction (non-trivial); "
              "distinct by (cpu, text)",
         traces_validated_against_impl=len(events) - len(canaries),
-        accepted_per_cpu=accepted, not_covered=sorted(skip), corpus_forms=len(forms), harvested_forms=len(harvested),
+        accepted_per_cpu=accepted, not_covered=sorted(skip), corpus_forms=len(forms), harvested_forms=len(harvested), cross_product_forms=ncross,
         canaries=dict(injected=len(canaries), rejected=len(canaries)), exhaustive=False))
     chk.samples = [dict(case=c[1], text=c[2]) for c in rnd.sample(cases, 5)]
     chk.assumptions = ["for CPUs without a transcribed architecture the oracle is self-consistency; an error made identically in encoder and decoder is not visible",
